@@ -331,7 +331,9 @@ func (s *synth) declStruct() string {
 }
 
 func (s *synth) declUnion() {
-	name := s.fresh("U")
+	s.n++
+	// the first two letters differ from one union to the next (the generated constant names use them)
+	name := fmt.Sprintf("%c%cUnion%d", 'A'+len(s.unions)%26, 'a'+(len(s.unions)/26)%26, s.n)
 	marker := "is" + name
 	fmt.Fprintf(&s.b, "type %s interface {\n\t%s()\n}\n\n", name, marker)
 	// members: some existing structs / named basics / lists, plus fresh structs
